@@ -38,6 +38,7 @@ RULE = (
     ' Round 6: `cancelled_read k` (reader cancelled after k loop iterations: what it did not return stays owed); BOM/NUL/backslash payloads enumerated.'
     ' Round 7: prefix levels with regex/format/shell metacharacters; constructor failure for a legal prefix is a violation.'
     ' Round 8: `write_while_reading`.'
+    ' Round 12: `concurrent_writes` (several tasks write while a publish takes a few loop iterations); `mid_cycle` (QoS > 0 deliveries whose packet identifiers repeat).'
     ' Round 9: `reconnect_retained` with staggered subscription acknowledgements; prefixes with empty levels.'
 )
 ASSUMPTIONS = [
@@ -83,8 +84,11 @@ class FakeBroker:
     def deliver(self, topic: str, payload: bytes, qos: int = 0, retain: bool = False) -> bool:
         if not self.subscribed(topic) or self.client is None:
             return False
+        # packet identifiers: 0 for QoS 0; for QoS > 0 a broker takes them from a small pool and re-uses one as soon as it was acknowledged
         self.mid = getattr(self, "mid", 0) + 1
-        self.client._queue.put_nowait(aiomqtt.Message(topic, payload, qos, retain, self.mid, None))
+        cycle = getattr(self, "mid_cycle", 0)
+        mid = 0 if qos == 0 else ((self.mid % cycle) + 1 if cycle else self.mid)
+        self.client._queue.put_nowait(aiomqtt.Message(topic, payload, qos, retain, mid, None))
         return True
 
     def break_connection(self) -> None:
@@ -139,6 +143,8 @@ class FakeClient:
 
     async def publish(self, topic, payload=None, qos=0, retain=False, *args, **kwargs) -> None:
         await asyncio.sleep(0)
+        for _ in range(getattr(self.broker, "slow_publish", 0)):
+            await asyncio.sleep(0)  # (the confirmation of a QoS > 0 publish takes a round trip)
         if self._disconnected.done() and self._disconnected.exception() is not None:
             raise MqttError("publish on a connection that was lost")
         if self.broker.fail_publish_next:
@@ -221,6 +227,7 @@ def _ops():
         (2, st.just(["abandoned_read"])),
         (3, st.integers(0, 4).map(lambda k: ["cancelled_read", k])),
         (2, _msg().map(lambda m: ["write_while_reading", m])),
+        (1, st.lists(_msg(), min_size=2, max_size=3).map(lambda ms: ["concurrent_writes", ms + [ms[0]], 2])),
         (2, _msg().map(lambda m: ["reconnect_retained", m])),
     )
     return st.lists(op, min_size=0, max_size=14)
@@ -233,6 +240,7 @@ def strategy(tier: str):
             "out_prefix": prefixes,
             "connect_fault": st.sampled_from(("none",) * 8 + ("connect", "subscribe")),
             "ops": _ops(),
+            "mid_cycle": st.sampled_from((0, 0, 1, 2)),
         }
     )
 
@@ -274,6 +282,17 @@ def enumerate_cases(tier: str):
             ops = [["deliver", [7, 1, 1, 0, 2, str(i)]] for i in range(n)] + [["deliver_bin", [7, 1, 1, 0, 2], "\xff"], ["deliver", [7, 1, 1, 0, 2, "last"]]]
             ops += [["cancelled_read", k], ["cancelled_read", k], ["read"], ["cancelled_read", k + 1]]
             yield {"in_prefix": "in", "out_prefix": "out", "connect_fault": "none", "ops": ops}
+    # deliveries with QoS > 0 whose packet identifiers repeat (a broker re-uses an identifier once the delivery was acknowledged)
+    for cycle in (1, 2, 3):
+        for qos in (1, 2):
+            ops = [["deliver", [7, 1, 1, 0, 2, str(i)], [qos, False]] for i in range(6)] + [["read"]] * 6 + [["deliver", [7, 1, 1, 0, 2, "1"], [qos, False]], ["deliver", [7, 1, 1, 0, 2, "1"], [qos, False]], ["read"], ["read"]]
+            yield {"in_prefix": "in", "out_prefix": "out", "connect_fault": "none", "ops": ops, "mid_cycle": cycle}
+    # several tasks write at once while a publish takes a few loop iterations
+    for slow in (0, 1, 3):
+        for msgs in ([[7, 1, 1, 0, 2, "a"], [7, 1, 1, 0, 2, "b"]], [[7, 1, 1, 1, 2, "a"], [7, 1, 1, 1, 2, "a"]], [[7, 1, 1, 0, 2, "a"], [8, 255, 3, 1, 9, "b"], [9, 1, 2, 0, 0, ""]],
+                     [[7, 1, 1, 1, 47, "x;y"], [7, 1, 1, 1, 47, "x;y"], [7, 1, 1, 1, 47, "z"], [7, 2, 1, 0, 47, "x;y"]]):
+            yield {"in_prefix": "in", "out_prefix": "out", "connect_fault": "none",
+                   "ops": [["concurrent_writes", msgs, slow], ["deliver", [1, 1, 1, 0, 2, "1"]], ["read"], ["concurrent_writes", msgs, slow], ["reconnect"], ["concurrent_writes", msgs, slow]]}
     # what the broker replays right after the subscription (retained messages), and every QoS it may deliver with
     for qos in (0, 1, 2):
         for retain in (False, True):
@@ -303,6 +322,7 @@ def run_case(case: dict) -> Outcome:
 
     async def main() -> Outcome | None:
         broker = FakeBroker()
+        broker.mid_cycle = int(case.get("mid_cycle") or 0)
         broker.fail_connect = case["connect_fault"] == "connect"
         broker.fail_subscribe = case["connect_fault"] == "subscribe"
         _patch(broker)
@@ -521,6 +541,27 @@ def run_case(case: dict) -> Outcome:
                     return fail(f"read-raises:{type(err).__name__}:expected-line", f"{where}: {err!r}")
                 if got.rstrip("\n") != f"3;3;1;0;2;wake{idx}":
                     return fail("read-wrong-line", f"{where}: pending read returned {got!r}")
+            elif kind == "concurrent_writes":
+                # several tasks write at the same time (the publish takes a few loop iterations): each line is published exactly once
+                if dead:
+                    continue
+                msgs = op[1]
+                before = len(broker.published)
+                broker.slow_publish = int(op[2]) if len(op) > 2 else 2
+                try:
+                    results = await asyncio.wait_for(asyncio.gather(*(transport.write(ref_format(*m)) for m in msgs), return_exceptions=True), 5.0)
+                except asyncio.TimeoutError:
+                    return fail("concurrent-writes-hang", f"{where}: {len(msgs)} concurrent writes never finish")
+                finally:
+                    broker.slow_publish = 0
+                for m, res in zip(msgs, results):
+                    if isinstance(res, BaseException):
+                        return fail(f"write-raises:{type(res).__name__}", f"{where}: concurrent write of {m} raised {res!r} (nothing was wrong with the connection)")
+                got_pubs = sorted((t, "" if p is None else (p.decode() if isinstance(p, bytes) else p)) for t, p, _q, _r in broker.published[before:])
+                want_pubs = sorted((f"{out_prefix}/{m[0]}/{m[1]}/{m[2]}/{m[3]}/{m[4]}", m[5]) for m in msgs)
+                if got_pubs != want_pubs:
+                    return fail("concurrent-writes-publishes-differ", f"{where}: {len(msgs)} tasks wrote {msgs!r}; the broker received {got_pubs!r}")
+                info["kinds"].add("concurrent-writes")
             elif kind == "cancelled_read":
                 # the reading task is cancelled (shutdown, asyncio.timeout) after a few loop iterations: an entry it did not
                 # return stays owed to the next read - whatever point of read() the cancellation hit
